@@ -146,6 +146,90 @@ theorem select_exact (pick : Pick) (ds : List Decl) (e : Decl) (f : Name) (hf : 
       exact hno d hd.1 hdep⟩
   exact this.2 rfl
 
+/-- The property's reference variant: with every declaration forced alive nothing is eliminated. -/
+theorem select_all_alive (pick : Pick) (ds : List Decl) (hall : ∀ d, d ∈ ds → d.alive = true) (d : Decl) :
+    d ∈ select pick ds ↔ d ∈ ds :=
+  ⟨select_subset pick ds d, fun hd => select_roots pick ds d hd (Or.inl (by simp [Decl.isAlive, hall d hd]))⟩
+
+/-- ... and the normal selection is always a subset of the all-alive one (DCE only removes). -/
+theorem select_subset_all_alive (pick₁ pick₂ : Pick) (ds : List Decl) (d : Decl) (h : d ∈ select pick₁ ds) :
+    { d with alive := true } ∈ select pick₂ (ds.map fun x => { x with alive := true }) :=
+  select_monotone_alive pick₁ pick₂ (fun x => { x with alive := true }) (fun _ => Or.inr rfl) ds d h
+
+/-! ### names only matter up to an injective renaming that keeps the empty name
+
+The selector compares names for equality and against `""` only; the correspondence run interns the (long) filter
+strings of the real archives before handing them to the model, which is justified by the following theorem. -/
+
+/-- rename all filter and dependency names of a declaration -/
+def rename (ρ : Name → Name) (d : Decl) : Decl :=
+  { d with obj := ρ d.obj, meth := ρ d.meth, deps := d.deps.map ρ }
+
+theorem select_renaming (pick₁ pick₂ : Pick) (ρ : Name → Name) (hinj : ∀ a b, ρ a = ρ b → a = b)
+    (hempty : ∀ a, ρ a = "" ↔ a = "") (ds : List Decl) (d : Decl) :
+    rename ρ d ∈ select pick₁ (ds.map (rename ρ)) ↔ d ∈ select pick₂ ds := by
+  rw [select_lfp, select_lfp]
+  have hroot : ∀ x, IsRoot (rename ρ x) ↔ IsRoot x := by
+    intro x
+    have : (rename ρ x).isAlive = x.isAlive := by
+      simp only [Decl.isAlive, Decl.unnamed, rename]
+      have hb : ∀ a : Name, (ρ a == "") = (a == "") := by
+        intro a
+        by_cases h : a = ""
+        · subst h
+          have := (hempty "").2 rfl
+          rw [this]
+        · have h' : ρ a ≠ "" := fun hh => h ((hempty a).1 hh)
+          rw [beq_eq_false_iff_ne.2 h, beq_eq_false_iff_ne.2 h']
+      rw [hb, hb]
+    simp only [IsRoot, this]
+    rfl
+  have hreninj : ∀ a b, rename ρ a = rename ρ b → a = b := by
+    intro a b h
+    cases a; cases b
+    simp only [rename, Decl.mk.injEq] at h ⊢
+    obtain ⟨h1, h2, h3, h4, h5, h6⟩ := h
+    refine ⟨h1, h2, h3, hinj _ _ h4, hinj _ _ h5, ?_⟩
+    exact (List.map_inj_right hinj).1 h6
+  constructor
+  · intro hl
+    have := hl (fun x => ∃ y, x = rename ρ y ∧ Live ds y) ⟨
+      fun x hx hr => by
+        obtain ⟨y, hy, rfl⟩ := List.mem_map.1 hx
+        exact ⟨y, rfl, (live_closed ds).roots y hy ((hroot y).1 hr)⟩,
+      fun e' he' hf => by
+        obtain ⟨e, he, rfl⟩ := List.mem_map.1 he'
+        refine ⟨e, rfl, (live_closed ds).step e he ?_⟩
+        intro f hff
+        have hfil : IsFilter (rename ρ e) (ρ f) := by
+          refine ⟨fun h => hff.1 ((hempty f).1 h), ?_⟩
+          rcases hff.2 with h | h
+          · exact Or.inl (by rw [h]; rfl)
+          · exact Or.inr (by rw [h]; rfl)
+        obtain ⟨d', ⟨y, rfl, hy⟩, hdep⟩ := hf (ρ f) hfil
+        refine ⟨y, hy, ?_⟩
+        simp only [rename, List.mem_map] at hdep
+        obtain ⟨a, ha, hab⟩ := hdep
+        rw [← hinj _ _ hab]; exact ha⟩
+    obtain ⟨y, hy, hly⟩ := this
+    rw [hreninj d y hy]; exact hly
+  · intro hl
+    apply hl (fun x => Live (ds.map (rename ρ)) (rename ρ x))
+    constructor
+    · intro x hx hr
+      exact (live_closed _).roots _ (List.mem_map_of_mem hx) ((hroot x).2 hr)
+    · intro e he hf
+      apply (live_closed _).step _ (List.mem_map_of_mem he)
+      intro g hg
+      have hg2 : g = ρ e.obj ∨ g = ρ e.meth := hg.2
+      have : ∃ f, g = ρ f ∧ IsFilter e f := by
+        rcases hg2 with h | h
+        · exact ⟨e.obj, h, fun h0 => hg.1 (by rw [h, h0]; exact (hempty "").2 rfl), Or.inl rfl⟩
+        · exact ⟨e.meth, h, fun h0 => hg.1 (by rw [h, h0]; exact (hempty "").2 rfl), Or.inr rfl⟩
+      obtain ⟨f, rfl, hff⟩ := this
+      obtain ⟨x, hx, hdep⟩ := hf f hff
+      exact ⟨rename ρ x, hx, List.mem_map_of_mem hdep⟩
+
 /-! A concrete, non-trivial instance: `main` depends on type `A` and on the unexported signature `m()`;
 `A.m` (both names available) is selected, `A.n` (signature never used) is not. -/
 
